@@ -61,6 +61,7 @@ class GeckoAsyncSpa(Observable):
         self._transport: Optional[asyncio.BaseTransport] = None
         self._protocol: Optional[GeckoAsyncUdpProtocol] = None
         self._is_connected = False
+        self._disconnected = False
 
         self.intouch_version_en = ""
         self.intouch_version_co = ""
@@ -144,13 +145,20 @@ class GeckoAsyncSpa(Observable):
         loop = asyncio.get_running_loop()
         self._con_lost = loop.create_future()
 
-        self._transport, _protocol = await loop.create_datagram_endpoint(
+        self._disconnected = False
+        transport, _protocol = await loop.create_datagram_endpoint(
             lambda: GeckoAsyncUdpProtocol(
                 self._con_lost,
                 (self.descriptor.destination[0], self.descriptor.destination[1]),
             ),
             family=socket.AF_INET,
         )
+        if self._disconnected:
+            # Disconnected while the endpoint was being created: nobody else
+            # knows about it, so release it and go no further
+            transport.close()
+            return
+        self._transport = transport
         assert isinstance(_protocol, GeckoAsyncUdpProtocol)
         self._protocol = _protocol
         await asyncio.sleep(GeckoConstants.CONNECTION_STEP_PAUSE_IN_SECONDS)
@@ -372,6 +380,7 @@ class GeckoAsyncSpa(Observable):
     async def disconnect(self) -> None:
         """Disconnect the spa from the async protocol"""
         self._is_connected = False
+        self._disconnected = True
         await self._event_handler(GeckoSpaEvent.RUNNING_SPA_DISCONNECTED)
         self.struct.reset()
         self._taskman.cancel_key_tasks("SPA")
